@@ -301,12 +301,27 @@ def run_problem(case):
                     fl.values = np.asfortranarray(fl.values)
             items = mk_items(f)
             bounds, lc = fem.dof.uniaxial(f, clamped=True, move=0.0, axis=0, sym=sym)
+            if case["mat"] == "mixed-ThreeField":
+                # prescribed values on the LAST field of the container too (volume ratio of every third cell held at 1.01)
+                fJ = f.fields[2]
+                bounds["J-held"] = fem.Boundary(fJ, mask=np.arange(fJ.values.shape[0]) % 3 == 0, value=1.01)
+                d0_, d1_ = fem.dof.partition(f, bounds)
+                lc = dict(lc, dof0=d0_, dof1=d1_)
             x = f
             label = f"moves={seq}/maxiter={maxiter}" + ("" if layout == "C" else "/layout=F")
             for si, mv in enumerate(seq):
                 bounds["move"].update(mv)
                 dof0, dof1 = lc["dof0"], lc["dof1"]
                 ext0 = fem.dof.apply(f, bounds, dof0)
+                # the prescribed values as the boundary objects state them (independent of dof.apply): field offset + unknown
+                offs_ = np.concatenate([[0], np.cumsum([fl.values.size for fl in f.fields])])
+                want_full = np.full(int(offs_[-1]), np.nan)
+                for b_ in bounds.values():
+                    k_ = [i_ for i_, fl in enumerate(f.fields) if fl is b_.field][0]
+                    want_full[offs_[k_] + np.asarray(b_.dof, dtype=int)] = np.broadcast_to(np.asarray(b_.value, dtype=float).ravel() if np.ndim(b_.value) else float(b_.value), (len(b_.dof),)) if np.ndim(b_.value) <= 1 else np.asarray(b_.value, dtype=float).ravel()
+                pres_ = want_full[dof0]
+                if np.isfinite(pres_).any() and np.nanmax(np.abs(pres_ - ext0)) > 0:
+                    c.bad(f"{label}/solve{si}/prescribed-values", "values handed to the solver for the prescribed unknowns vs the values the boundary objects state", float(np.nanmax(np.abs(pres_ - ext0))), 0)
                 committed_before = {k: (None if getattr(it.results, "statevars", None) is None else np.array(it.results.statevars, copy=True)) for k, it in items.items()}
                 x_before = np.concatenate([fl.values.ravel() for fl in f.fields]).copy()
                 try:
